@@ -150,6 +150,30 @@ Fixpoint hrs_monotone (l : list released) : bool :=
 Definition P_C20 (ops : list sop) (outs : list sout) : bool :=
   let rl := released_of ops outs in no_double_sign rl && hrs_monotone rl.
 
+(* third clause of the property: asked again for the message it signed last (same height, round,
+   step and content; any timestamp) the signer answers with the ORIGINAL signature, i.e. the one
+   covering the original timestamp — not with a refusal and not with a new signature.  [last] is
+   the latest released signature as long as nothing unobservable (a lost answer) may have moved the
+   state since. *)
+Definition rel_of (q : request) (ts : Z) : released :=
+  {| rl_h := q_h q; rl_r := q_r q; rl_step := q_step q; rl_content := q_content q; rl_ts := ts |}.
+Definition same_request (a : released) (q : request) : bool :=
+  (rl_h a =? q_h q) && (rl_r a =? q_r q) && (rl_step a =? q_step q) && (rl_content a =? q_content q).
+Fixpoint resign_ok (last : option released) (ops : list sop) (outs : list sout) : bool :=
+  match ops, outs with
+  | SReq q :: ops', o :: outs' =>
+      let ok := match last with
+                | Some a => if same_request a q then match o with OSigned t => t =? rl_ts a | _ => false end else true
+                | None => true
+                end in
+      let last' := match o with OSigned t => Some (rel_of q t) | _ => last end in
+      ok && resign_ok last' ops' outs'
+  | SReqLost _ :: ops', _ :: outs' => resign_ok None ops' outs'
+  | SReload :: ops', _ :: outs' => resign_ok last ops' outs'
+  | _, _ => true
+  end.
+Definition P_C20_resign (ops : list sop) (outs : list sout) : bool := resign_ok None ops outs.
+
 (* ---- correspondence entry points --------------------------------------------------- *)
 Definition serr_eqb (a b : serr) : bool :=
   match a, b with
@@ -187,7 +211,7 @@ Fixpoint first_diff (eqb : sout -> sout -> bool) (n : nat) (a b : list sout) : o
 Definition check_case (c : list sop * list sout) : option nat * option nat * bool :=
   (first_diff sout_eqb_proj 0 (souts (fst c)) (snd c),
    first_diff sout_eqb 0 (souts (fst c)) (snd c),
-   P_C20 (fst c) (snd c)).
+   P_C20 (fst c) (snd c) && P_C20_resign (fst c) (snd c)).
 
 Fixpoint check_cases_from (i : nat) (cs : list (list sop * list sout))
   : list (nat * option nat * option nat * bool) :=
